@@ -207,7 +207,19 @@ impl<'de, R: ReadSlice<'de>> Deserializer<'de> for StringDeserializer<'_, '_, R>
 
 	serde::forward_to_deserialize_any! {
 		bool i8 i16 i32 i64 i128 u8 u16 u32 u64 u128 f32 f64 char str string
-		bytes byte_buf option unit unit_struct newtype_struct seq tuple
+		bytes byte_buf option unit unit_struct seq tuple
 		tuple_struct map struct enum identifier
+	}
+
+	fn deserialize_newtype_struct<V>(
+		self,
+		_name: &'static str,
+		visitor: V,
+	) -> Result<V::Value, Self::Error>
+	where
+		V: Visitor<'de>,
+	{
+		// Newtype structs are serialized as the value they contain
+		visitor.visit_newtype_struct(self)
 	}
 }
